@@ -298,7 +298,7 @@ class C19(core.Check):
         'inverted-range:numeric_bytecode', 'inverted-range:relative_address', 'inverted-range:relative_address/zero-bound',
         'inverted-range:numeric_bytecode/zero-bound', 'zone:inverted', 'zone:beyond-address-width',
         'origin-below-redefined-GLOBAL', 'instruction-without-bytecode', 'variant-without-bytecode', 'unknown-operand-type',
-        'enumeration-key-is-register', 'isa-version-not-semver', 'gate:min_version', 'gate:require', 'gate:require/name-from-file-name', 'fmt:yaml', 'fmt:json', 'optional-part-shape', 'optional-part:registers-without-value']}
+        'enumeration-key-is-register', 'isa-version-not-semver', 'gate:min_version', 'gate:require', 'gate:require/name-from-file-name', 'fmt:yaml', 'fmt:json', 'optional-part-shape', 'optional-part:registers-without-value', 'gate:min_version/written-as-a-number']}
 
     def run(self, isa, fmt, src='.byte 0\n'):
         fn, text = isamod.render_isa(isa, fmt)
@@ -359,6 +359,17 @@ class C19(core.Check):
                 yield {'runs': [self.run(isa, fmt)],
                        'meta': {'expect': 'ACCEPT' if ok else 'REJECT', 'what': f'min_version={v}', 'style': 'gate',
                                 'detail': f'running {cur}, minimum supported {mn}'}, 'tags': ['gate:min_version', 'fmt:' + fmt]}
+        # the same gate when the version is written as a number (min_version: 0.3 - natural in YAML and JSON): a number is
+        # read as its decimal text; zero is a version like any other (older than every supported format)
+        for v in (0, 0.0, 0.3, 0.4, 0.2, 1, 1000, 0.10):
+            for fmt in ('json', 'yaml'):
+                isa = gen_prog.layout_isa(16)
+                isa['general']['min_version'] = v
+                ok = vcmp(str(v), cur) <= 0 and vcmp(str(v), mn) >= 0
+                yield {'runs': [self.run(isa, fmt)],
+                       'meta': {'expect': 'ACCEPT' if ok else 'REJECT', 'what': f'min_version={v!r} (a number)', 'style': 'gate',
+                                'detail': f'running {cur}, minimum supported {mn}'},
+                       'tags': ['gate:min_version', 'gate:min_version/written-as-a-number', 'fmt:' + fmt]}
         # #require
         for name_ok in (True, False):
             for op in REQ_OPS + [None]:
